@@ -333,6 +333,9 @@ def digest(module):
     return h.hexdigest()
 
 
+THOROUGH_ONLY = {"GaussianTanhPolicy"}  # quick-tier budget; its structure (GaussianMLP + non-Param variables) is covered by parts of the quick zoo
+
+
 def module_zoo(seed):
     """name -> (factory(seed) -> module, call(module) -> outputs)."""
     import gymnasium as gym
@@ -383,7 +386,7 @@ def modules_part(rep, quick):
     os.makedirs(tmp, exist_ok=True)
     n = 0
     try:
-        zoo = dict(module_zoo(rep.seed))
+        zoo = {k: v for k, v in module_zoo(rep.seed).items() if not (quick and k in THOROUGH_ONLY)}
         from . import c19_modules
 
         zoo.update(c19_modules.deep_zoo())
@@ -523,7 +526,8 @@ def run(rep):
     jobs.append(("prio", ("PER", 1, 2, 4, 2, True), rep.seed))
     jobs.append(("prio", ("LAP", 2, 2, 3, 1, False), rep.seed))
     jobs.append(("prio", ("LAP", 1, 2, 4, 1, False, 3), rep.seed))
-    jobs.append(("prio", ("PER", 1, 2, 3, 2, True, 3), rep.seed))
+    if not quick:
+        jobs.append(("prio", ("PER", 1, 2, 3, 2, True, 3), rep.seed))
     jobs.append(("subtraj", (3, 1, 5, False, 1), rep.seed))
     jobs.append(("subtraj", (4, 2, 6, False, 1), rep.seed))
     jobs.append(("subtraj", (3, 1, 3, True, 1), rep.seed))
@@ -558,7 +562,7 @@ def run(rep):
     tmpg = os.path.join(tlc.OUT, "tmp", f"c19g-{os.getpid()}")
     os.makedirs(tmpg, exist_ok=True)
     try:
-        zoo = dict(module_zoo(rep.seed))
+        zoo = {k: v for k, v in module_zoo(rep.seed).items() if not (quick and k in THOROUGH_ONLY)}
         zoo.update(c19_modules.deep_zoo())
         g_steps, g_seen, g_edges = c19_modules.run_part(rep, quick, zoo, {"digest": digest, "one_step": _one_step, "bytes_of": _bytes_of}, tmpg)
     finally:
